@@ -1,7 +1,7 @@
 (* C07 — executable instantiation used by the correspondence check (no proofs; depends on Model.v only). *)
 From Coq Require Import List NArith ZArith Bool.
 Import ListNotations.
-From Verif.C07 Require Import Model.
+From Verif.C07 Require Export Model.
 Local Open Scope N_scope.
 
 (* ---- compact case syntax written by the harness -------------------------------------------- *)
